@@ -44,7 +44,8 @@ def worker(job):
         kw["features"] = rng.choice([[], ["feat_a"]])
         kw["fixed_effects"] = rng.choice([{}, {"county_classification": "all"}])
     if pi == "bootstrap":
-        kw["office"] = rng.choice(["S", "P", "S", "H"])      # mostly offices that have a national summary
+        kw["office"] = "H" if seed % 5 == 0 else ["S", "P"][seed % 2]      # mostly offices that have a national summary
+        rng.random()
         if kw["office"] != "H":
             # enough contests for the summary (a count of contests) to react to a change of the contest-level distributions
             kw["tossup"] = True
